@@ -104,9 +104,24 @@ def replay(path):
         bad, pi = GC.fg_order_dependent(d["w"])
         print("order dependent:", bad, pi)
         return 1 if bad else 0
+    if d.get("kind") == "groupsym":
+        from gsv import groupsym
+        bad = groupsym.replay(d)
+        print("reproduces:", bad)
+        return 1 if bad else 0
     if d.get("kind") == "fgsym":
         from gsv import fgsym
-        bad = fgsym.reproduces(d["name"], d["vals"], d["n"], d.get("sep_na"))
+        if d.get("variant"):
+            fgsym.set_variant(d["variant"])
+        if d["name"] == "fg_no_error":
+            try:
+                fgsym.real_partition(d["vals"], fgsym.LABS[d["n"]][0])
+                bad = False
+            except Exception as e:   # noqa: BLE001
+                print("raises", type(e).__name__, e)
+                bad = True
+        else:
+            bad = fgsym.reproduces(d["name"], d["vals"], d["n"], d.get("sep_na"))
         print("reproduces:", bad)
         return 1 if bad else 0
     cex = {(int(k) if k.isdigit() else k): v for k, v in d["cex"].items()}
